@@ -117,7 +117,7 @@ class _G:
             if self.cls in ("text", "regex", "recursive") and r.random() < 0.5:
                 # alternatives sharing a prefix
                 self.features.add("shared-prefix")
-                return '("abc" | "abd" | "ab" ' + a + ")", False if not na else False
+                return '("abc" | "abd" | "ab" | ' + a + ")", na
             return f"({a} | {b})", na or nb
         # a named rule
         self.nts += 1
